@@ -48,7 +48,10 @@ class SimContext:
     async def create_server_context(cls, root, bind=None, *a, **k):
         return cls(CUR["world"], root)
 
-    def request(self, msg: Message) -> _Req:
+    def request(self, msg: Message, handle_blockwise: bool = True, **kw) -> _Req:
+        """aiocoap.Context.request(request_message, handle_blockwise=True).  With handle_blockwise=False the requester neither
+        splits a large request nor COLLECTS a reply the server sends block-wise: the caller gets the first block only (a reply
+        above the server's maximum_payload_size of 1124 bytes comes as 1024-byte blocks, option Block2 more=True)"""
         loop = asyncio.get_running_loop()
         fut = loop.create_future()
         w = self.world
@@ -92,6 +95,11 @@ class SimContext:
                 w.ctx.probe("coap_reply_lost_after_processing")
                 return
             code, payload = box["reply"]
+            if not handle_blockwise and len(payload) > 1124:
+                w.ctx.probe("coap_blockwise_reply_not_collected")
+                payload = payload[:1024]
+            elif len(payload) > 1124:
+                w.ctx.probe("coap_reply_sent_blockwise")
             fut.set_result(Message(code=code, payload=payload))
 
         loop.call_later(delay / 2, arrive)
